@@ -315,7 +315,7 @@ func runWaitCancelled(t harness.TB, st *harness.Stats, sc waitScen) {
 			if errors.Is(err, timeout.ErrExceeded) {
 				want = 1
 			}
-			for w := harness.Wait(30 * time.Second); want == 1 && !w.Expired(); {
+			for w := harness.Wait(5 * time.Second); want == 1 && !w.Expired(); { // (time during which this process was running)
 				mu.Lock()
 				n := counts["OnTimeoutExceeded"]
 				mu.Unlock()
